@@ -245,6 +245,27 @@ def run(ctx: Ctx, tier: str) -> Result:
                              "%s.%s reads '%s' from the action config but %s never writes it: the tracepoint argument '%s' has no effect" % (f.cls.name, f.name, k, b, k)))
     res.floor("action-context config reads", nreads, 8)
 
+    # ---------------- KEEP: tracepoints on the same location keep all of their actions (rules shared with C03)
+    from . import c03
+    from .. import report as _report
+    res.rule("C11.KEEP", "same-location tracepoints keep all their actions (merge key, merge, every matching trigger visited)")
+    from ..index import AnalysisError
+    try:
+        sub = c03.run(ctx, tier)
+    except AnalysisError:
+        sub = _report.CURRENT           # findings established before the anchor vanished are kept
+        if sub is None or sub.pid != "C03" or not sub.findings:
+            _report.CURRENT = res
+            raise
+    _report.CURRENT = res
+    for rid in ("C03.LOOP", "C03.MERGE"):
+        r_ = sub.rules.get(rid, {"obligations": 0, "discharged": 0})
+        for _ in range(r_["discharged"]):
+            res.ok("C11.KEEP")
+    for f_ in sub.findings:
+        if f_.rule in ("C03.LOOP", "C03.MERGE"):
+            res.fail(Finding("C11.KEEP", f_.func, f_.construct, f_.loc, f_.msg, f_.path))
+
     # ---------------- ISOLATE
     for qn in ("deep.grpc.convert_response", "deep.config.tracepoint_config.TracepointConfigService.add_custom"):
         f = p.func(qn)
